@@ -12,7 +12,10 @@ pub struct Number {
 }
 impl PartialEq for Number {
     fn eq(&self, other: &Self) -> bool {
-        (self.value - other.value).abs() / self.value.abs() <= f64::EPSILON
+        let (a, b) = (self.value, other.value);
+        // Note: The relative difference must be symmetric, and equal
+        // values (e.g. zero or infinity) needs no arithmetic.
+        a == b || (a - b).abs() / a.abs().max(b.abs()) <= f64::EPSILON
     }
 }
 impl Eq for Number {}
